@@ -275,9 +275,16 @@ func init() {
 		in.call(fr, 0, args[1], nil)
 		return nil
 	}
-	// sync.Pool without pooling: Get returns New() (or nil), Put drops the object
+	// sync.Pool as a LIFO free list per path: Get returns the object put last, else New() (or nil).
+	// The runtime may also drop pooled objects; reuse is the behaviour under which state left in a
+	// pooled object by an earlier call becomes visible.
 	externals["(*sync.Pool).Get"] = func(in *Interp, fr *frame, args []value) value {
 		p := args[0].(*value)
+		if l, ok := in.path.side[p].(*poolState); ok && len(l.items) > 0 {
+			v := l.items[len(l.items)-1]
+			l.items = l.items[:len(l.items)-1]
+			return v
+		}
 		st := in.findType("sync", "Pool").Underlying().(*types.Struct)
 		for i := 0; i < st.NumFields(); i++ {
 			if st.Field(i).Name() == "New" {
@@ -290,10 +297,24 @@ func init() {
 		}
 		return iface{}
 	}
-	externals["(*sync.Pool).Put"] = nop
+	externals["(*sync.Pool).Put"] = func(in *Interp, fr *frame, args []value) value {
+		p := args[0].(*value)
+		if itf, ok := args[1].(iface); ok && itf.t == nil {
+			return nil
+		}
+		l, ok := in.path.side[p].(*poolState)
+		if !ok {
+			l = &poolState{}
+			in.path.side[p] = l
+		}
+		l.items = append(l.items, args[1])
+		return nil
+	}
 	externals["runtime.KeepAlive"] = nop
 	externals["runtime.SetFinalizer"] = nop
 }
+
+type poolState struct{ items []value }
 
 // nativeFunc is a function value implemented by the engine.
 type nativeFunc struct {
